@@ -304,7 +304,13 @@ pub(crate) fn coerce_argument_values(
             }
         }
         if let Some(default) = &arg_def.default_value {
-            let value = graphql_value_to_json(&format_args!("argument {arg_name}"), default)
+            let description = format_args!("argument {arg_name}");
+            // Default values go through input coercion like provided values do
+            // (a single value for a list type is wrapped, input object defaults are filled in)
+            let value = graphql_value_to_json(&description, default)
+                .and_then(|value| {
+                    coerce_variable_value(ctx.schema, &description, &arg_def.ty, &value)
+                })
                 .map_err(|err| {
                     ctx.errors
                         .push(err.into_field_error(path, &ctx.document.sources));
@@ -424,15 +430,21 @@ fn coerce_argument_value(
                         )?;
                         coerced_object.insert(field_name.as_str(), coerced_value);
                     } else if let Some(default) = &field_def.default_value {
-                        let default = graphql_value_to_json(
-                            &format_args!("input field {ty_name}.{field_name}"),
-                            default,
-                        )
-                        .map_err(|err| {
-                            ctx.errors
-                                .push(err.into_field_error(path, &ctx.document.sources));
-                            PropagateNull
-                        })?;
+                        let description = format_args!("input field {ty_name}.{field_name}");
+                        let default = graphql_value_to_json(&description, default)
+                            .and_then(|default| {
+                                coerce_variable_value(
+                                    ctx.schema,
+                                    &description,
+                                    &field_def.ty,
+                                    &default,
+                                )
+                            })
+                            .map_err(|err| {
+                                ctx.errors
+                                    .push(err.into_field_error(path, &ctx.document.sources));
+                                PropagateNull
+                            })?;
                         coerced_object.insert(field_name.as_str(), default);
                     } else if field_def.ty.is_non_null() {
                         ctx.errors.push(GraphQLError::field_error(
